@@ -397,6 +397,12 @@ func runC10(r *Run) {
 	}
 }
 
+// budgetTime is the wall-clock allowance of a parse limited to b steps: a fixed part plus a generous microsecond per
+// step (a step costs some tens of nanoseconds; the allowance only has to separate "stops at the budget" from "runs on").
+func budgetTime(b uint64) time.Duration {
+	return 2*time.Second + time.Duration(b)*time.Microsecond
+}
+
 // C11: WithMaxExpressions is an exact, monotone budget.
 func runC11(r *Run) {
 	r.Rule = "inputs: hand corpus, derivations, rendered trees, mutations, malformed strings and nested parentheses (depth 1..9); per input the step count N of the unlimited parse (VerifParse) and budgets {1, 2, N/2, N-1, N, N+1, 2N, geometric sweep}; predicate on the implementation: n >= N or n = 0 gives the unlimited result, 0 < n < N gives the max-expressions error after exactly n+1 steps; CreateEvaluator with WithMaxExpressions agrees; the model is compared on the same (input, budget) pairs; non-trivial = distinct (input, budget)"
@@ -475,14 +481,14 @@ func runC11(r *Run) {
 				if o != want {
 					r.Violate("small-budget-not-exact", key, c2, "expected "+want+" got "+truncate(o, 120))
 				}
-				if el > 2*time.Second {
+				if el > budgetTime(b) {
 					r.Violate("budget-not-bounding-time", key, c2, el.String())
 				}
 			}
 			// public API
 			t1 := time.Now()
 			_, err := bexpr.CreateEvaluator(s, bexpr.WithMaxExpressions(b))
-			if el1 := time.Since(t1); b < N && el1 > 2*time.Second {
+			if el1 := time.Since(t1); b < N && el1 > budgetTime(b) {
 				r.Violate("budget-not-bounding-time", key, c2, "CreateEvaluator: "+el1.String())
 			}
 			_, err0 := bexpr.CreateEvaluator(s)
